@@ -647,6 +647,95 @@ pub fn run(tier: Tier) -> i32 {
             rep.violation(&format!("C15/{}/elif-skeleton/style={}", kind, ["plain", "labelled-directives", "glued-comments", "backslash-comment-lines"][style]), || format!("slots {:?}: {}", kinds, what), || json!({"kind": "build_str", "source": text, "observed": o.to_json()}));
         }
     });
+    // long sources: the line number is a number, not a 16-bit (or 8-bit) field. Every fault on
+    // lines around 2^8, 2^15, 2^16 and 2^17 of a source of comment, blank and nop lines, and
+    // messages there with their own numbers
+    let n_far = AtomicU64::new(0);
+    {
+        let targets: Vec<usize> = if tier.thorough() { vec![255, 256, 257, 32767, 32768, 32769, 65535, 65536, 65537, 65600, 70001, 131071, 131072, 131073, 200003] } else { vec![256, 32768, 65535, 65536, 65537, 65999, 131073] };
+        let mut fw: Vec<(usize, usize)> = vec![];
+        for (fi, _) in FAULTS.iter().enumerate() {
+            for t in targets.iter() {
+                fw.push((fi, *t));
+            }
+        }
+        let filler = |n: usize, out: &mut String| {
+            for i in 0..n {
+                out.push_str(match i % 4 { 0 => "; far\n", 1 => "\n", 2 => "    nop\n", _ => "// far\n" });
+            }
+        };
+        fw.par_iter().for_each(|(fi, target)| {
+            let f = &FAULTS[*fi];
+            let mut text = String::with_capacity(target * 8);
+            text.push_str("dup_lbl_q:\n");
+            filler(target - 2, &mut text);
+            // fault on line `target`
+            for l in f.lines.iter() {
+                text.push_str(l);
+                text.push('\n');
+            }
+            text.push_str("    nop\n");
+            text.push_str(EPILOGUE);
+            let o = sut::build_str(&text);
+            evals.fetch_add(1, Ordering::Relaxed);
+            n_far.fetch_add(1, Ordering::Relaxed);
+            let bad: Option<(&str, String)> = match &o {
+                Outcome::Err(e) if has_number_token(e, *target) || (f.name == "duplicate-label" && has_number_token(e, 1)) => None,
+                Outcome::Err(e) => Some(("no-line", format!("the error does not name line {}: {}", target, e))),
+                Outcome::Ok(_) => Some(("accepted", format!("the faulty line {} is accepted", target))),
+                Outcome::Panic { site, msg } => Some(("panic", format!("panic at {}: {}", site, msg))),
+            };
+            if let Some((kind, what)) = bad {
+                rep.violation(&format!("C15/{}/far-line/fault={}", kind, f.name), || format!("fault `{}` on line {} of a long source: {}", f.lines[0], target, what), || {
+                    json!({"kind": "build_str", "source_is": format!("`dup_lbl_q:`, then {} lines cycling `; far` / empty / `    nop` / `// far`, then the fault line(s), `    nop`, and the epilogue", target - 2), "fault_lines": f.lines, "epilogue": EPILOGUE, "fault_line": target, "observed": o.to_json()})
+                });
+            }
+        });
+        // messages on far lines: own numbers, source order, same image
+        let far_msgs: Vec<usize> = targets.iter().copied().filter(|t| *t > 300).collect();
+        let mut text = String::new();
+        let mut plain = String::new();
+        let mut line = 1usize;
+        let mut expected: Vec<(String, usize)> = vec![];
+        for (i, t) in far_msgs.iter().enumerate() {
+            filler(t - line, &mut text);
+            filler(t - line, &mut plain);
+            let marker = format!("farmk{}q", i);
+            text.push_str(&format!(".{} \"{}\"\n", if i % 2 == 0 { "message" } else { "warning" }, marker));
+            plain.push('\n');
+            expected.push((marker, *t));
+            line = t + 1;
+        }
+        text.push_str("    nop\n");
+        plain.push_str("    nop\n");
+        let (o, op) = (sut::build_str(&text), sut::build_str(&plain));
+        evals.fetch_add(2, Ordering::Relaxed);
+        n_far.fetch_add(1, Ordering::Relaxed);
+        let bad: Option<(&str, String)> = match (&o, &op) {
+            (Outcome::Ok(b), Outcome::Ok(bp)) => {
+                if b.code != bp.code {
+                    Some(("message-changes-image", "the image differs from the message-free program's".to_string()))
+                } else if b.messages.len() != expected.len() {
+                    Some(("message-list", format!("{} messages reported for {} .message/.warning lines: {:?}", b.messages.len(), expected.len(), b.messages)))
+                } else {
+                    b.messages.iter().zip(expected.iter()).find_map(|(m, (mk, ln))| {
+                        if !m.contains(mk.as_str()) {
+                            Some(("message-order", format!("messages are not in source order: {:?}", b.messages)))
+                        } else if !has_number_token(m, *ln) {
+                            Some(("message-line-number", format!("message `{}` does not carry its line number {}", m, ln)))
+                        } else {
+                            None
+                        }
+                    })
+                }
+            }
+            (a, b) => Some(("far-messages-do-not-build", format!("{} / {}", a.brief(), b.brief()))),
+        };
+        if let Some((kind, what)) = bad {
+            rep.violation(&format!("C15/{}/far-line", kind), || format!(".message / .warning on lines {:?} of a long source: {}", far_msgs, what), || json!({"kind": "build_str", "source_is": "filler lines cycling `; far` / empty / `    nop` / `// far` with a .message (even index) or .warning (odd index) \"farmk<i>q\" on each listed line, then `    nop`", "lines": far_msgs, "observed": o.to_json()}));
+        }
+    }
+    rep.guard(n_far.load(Ordering::Relaxed) > 100, "fewer than 100 far-line programs");
     let fu = fault_use.lock().unwrap().clone();
     for f in FAULTS.iter() {
         rep.guard(fu.get(f.name).copied().unwrap_or(0) > 20, &format!("fault kind {} was injected at fewer than 20 positions", f.name));
@@ -671,6 +760,7 @@ pub fn run(tier: Tier) -> i32 {
         "message_placements_in_the_elif_skeleton": n_msg_b.load(Ordering::Relaxed),
         "faults_inside_a_called_macro_body": n_in_macro.load(Ordering::Relaxed),
         "malformed_structural_lines": n_structural.load(Ordering::Relaxed),
+        "far_line_programs": n_far.load(Ordering::Relaxed),
         "caps_hit": [],
         "trusted_base": ["harness lexer for liveness/segment context", "decimal token match"],
     }));
